@@ -490,6 +490,9 @@ func (g *gen) history(p gparams) *History {
 			pstate = map[string]string{}
 		}
 		height := ph64 + 1
+		if parent < 0 && r.Chance(1, 3) {
+			height = 0 // genesis height
+		}
 		strict := p.guarded && p.forks > 0 // guarded fork histories: consecutive heights, every height saves, >= 2 keys
 		if r.Chance(1, 10) && !strict {
 			height += int64(r.Range(1, 3))
